@@ -8,6 +8,7 @@ import (
 	"os"
 	"sync"
 	"sync/atomic"
+	"syscall"
 	"time"
 
 	"verifharness/vnet"
@@ -44,6 +45,15 @@ func (u *UpConn) SawEOF() (bool, time.Duration, string) {
 
 // Done is closed when the upstream's handler for this connection returned.
 func (u *UpConn) Done() <-chan struct{} { return u.done }
+
+// ReadOneRecord reads (and records) the first byte of the connection.
+func (u *UpConn) ReadOneRecord() {
+	one := make([]byte, 1)
+	n, _ := u.Conn.Read(one)
+	u.mu.Lock()
+	u.received = append(u.received, one[:n]...)
+	u.mu.Unlock()
+}
 
 // ReadAllRecord reads the connection to EOF/error, recording bytes; it returns when reading ended.
 func (u *UpConn) ReadAllRecord() {
@@ -189,4 +199,67 @@ func EchoHandler(uc *UpConn) {
 			return
 		}
 	}
+}
+
+// NewUpstreamOn serves an existing TCP listener.
+func NewUpstreamOn(l net.Listener, handler func(*UpConn)) *Upstream {
+	up := &Upstream{Network: "tcp", Handler: handler, L: l, Addr: "tcp/" + l.Addr().String()}
+	go up.serve()
+	return up
+}
+
+// ReservedPort is a loopback TCP port that refuses connections: a socket is bound to it but does not listen, so the
+// kernel cannot hand the port to another listener or outgoing connection of this process in the meantime.
+type ReservedPort struct {
+	HostPort string
+	mu       sync.Mutex
+	fd       int
+}
+
+// ReservePort picks a free loopback port and reserves it.
+func ReservePort() (*ReservedPort, error) {
+	for try := 0; try < 20; try++ {
+		l, err := net.Listen("tcp", "127.0.0.1:0")
+		if err != nil {
+			return nil, err
+		}
+		ta := l.Addr().(*net.TCPAddr)
+		_ = l.Close()
+		fd, err := syscall.Socket(syscall.AF_INET, syscall.SOCK_STREAM, 0)
+		if err != nil {
+			return nil, err
+		}
+		_ = syscall.SetsockoptInt(fd, syscall.SOL_SOCKET, syscall.SO_REUSEADDR, 1)
+		sa := &syscall.SockaddrInet4{Port: ta.Port}
+		copy(sa.Addr[:], ta.IP.To4())
+		if err := syscall.Bind(fd, sa); err == nil {
+			return &ReservedPort{HostPort: ta.String(), fd: fd}, nil
+		}
+		_ = syscall.Close(fd)
+	}
+	return nil, fmt.Errorf("cannot reserve a port")
+}
+
+// Release gives the port back.
+func (r *ReservedPort) Release() {
+	r.mu.Lock()
+	defer r.mu.Unlock()
+	if r.fd != 0 {
+		_ = syscall.Close(r.fd)
+		r.fd = 0
+	}
+}
+
+// Listen releases the reservation and starts listening on the port.
+func (r *ReservedPort) Listen() (net.Listener, error) {
+	r.Release()
+	var l net.Listener
+	var err error
+	for i := 0; i < 50; i++ {
+		if l, err = net.Listen("tcp", r.HostPort); err == nil {
+			return l, nil
+		}
+		time.Sleep(5 * time.Millisecond)
+	}
+	return nil, err
 }
